@@ -75,6 +75,34 @@ def invalidate_on_edit(idx: Index, res: Result, rule: str = "MUSTCALL") -> int:
                   "model.reset_cache(): values of dependent elements memoised earlier stay stale; path: %s"
                   % (label, " ".join(flow.witness(cfg.exit, bad[0], 16)) if bad else ""),
                   key="%s/%s/reset_cache" % (rule, label))
+        # DROP (round 10): a definition setter may leave early without storing / recompiling only when the new definition provably
+        # *is* the old one.  `new == self.<stored>` proves nothing: for an Element/Operator operand the comparison is overloaded and
+        # builds an (always truthy) operator object, so the edit "constant -> number" would be dropped and every memoised value kept.
+        # Accepted: identity tests, or == under a guard that pins the stored value to a plain number (isinstance / type(...) is).
+        if fi.qual.endswith(".setter"):
+            from ..util import path_atoms
+            for ret in [n for n in ast.walk(fi.node) if isinstance(n, ast.Return)]:
+                atoms = path_atoms(fi.node, ret)
+                pinned = set()
+                for a, truth in atoms:
+                    if truth and isinstance(a, ast.Call) and isinstance(a.func, ast.Name) and a.func.id == "isinstance" and len(a.args) == 2:
+                        kinds = ast.unparse(a.args[1])
+                        if not any(k in kinds for k in ("Element", "Constant", "Converter", "Operator", "Stock", "Flow", "object")):
+                            pinned.add(ast.unparse(a.args[0]))
+                    if truth and isinstance(a, ast.Compare) and len(a.ops) == 1 and isinstance(a.ops[0], ast.Is) and isinstance(a.left, ast.Call) \
+                            and isinstance(a.left.func, ast.Name) and a.left.func.id == "type" and a.left.args:
+                        pinned.add(ast.unparse(a.left.args[0]))
+                for a, truth in atoms:
+                    if isinstance(a, ast.Compare) and len(a.ops) == 1 and ((truth and isinstance(a.ops[0], ast.Eq)) or (not truth and isinstance(a.ops[0], ast.NotEq))):
+                        sides = [a.left, a.comparators[0]]
+                        stored = [x for x in sides if isinstance(x, ast.Attribute) and isinstance(x.value, ast.Name) and x.value.id == "self"]
+                        bad_sides = [ast.unparse(x) for x in stored if ast.unparse(x) not in pinned]
+                        res.check("DROP", "%s: early return under %s keeps the old definition only when it is the new one" % (label, ast.unparse(a)),
+                                  not bad_sides, fi.loc(ret), fi.qual, "return guarded by == on a stored definition",
+                                  "%s returns before storing / recompiling when `%s` is truthy; %s may hold an Element (Constant, Converter) whose "
+                                  "== is overloaded and always truthy, so an edit from an element to a number is silently dropped and memoised "
+                                  "values of the old definition keep being reported" % (label, ast.unparse(a), ", ".join(bad_sides)),
+                                  key="DROP/%s/%s" % (label, "eq-on-stored"))
     return nmembers
 
 
